@@ -23,6 +23,8 @@ import (
 //
 // Documented behaviour relied on (paths under /repo/graph):
 //
+//   encoding/dot/doc.go:14-20       "Attributes and IDs are quoted if needed during marshalling ... Quoted IDs and
+//                                   attributes are unquoted during unmarshaling"; quoted text "<...>" stays quoted
 //   encoding/dot/encode.go:86-96    Marshal; "Attributes and IDs are quoted if needed during marshalling";
 //                                   name overrides DOTID, DOTID is used when name is empty
 //   encoding/dot/encode.go:20-32    Node.DOTID: an ID is an identifier, a numeral, a double-quoted string
@@ -69,8 +71,8 @@ type dotHNode struct {
 	dotAttrList
 }
 
-func (n *dotHNode) ID() int64        { return n.id }
-func (n *dotHNode) DOTID() string    { return n.name }
+func (n *dotHNode) ID() int64         { return n.id }
+func (n *dotHNode) DOTID() string     { return n.name }
 func (n *dotHNode) SetDOTID(s string) { n.name, n.named = s, true }
 
 // dotHEdge is an edge or a line with attributes and ports.
@@ -89,10 +91,10 @@ func (e *dotHEdge) reversed() *dotHEdge {
 	r.list = append([]encoding.Attribute(nil), e.list...)
 	return r
 }
-func (e *dotHEdge) ReversedEdge() graph.Edge              { return e.reversed() }
-func (e *dotHEdge) ReversedLine() graph.Line              { return e.reversed() }
-func (e *dotHEdge) FromPort() (string, string)            { return e.fp, e.fc }
-func (e *dotHEdge) ToPort() (string, string)              { return e.tp, e.tc }
+func (e *dotHEdge) ReversedEdge() graph.Edge               { return e.reversed() }
+func (e *dotHEdge) ReversedLine() graph.Line               { return e.reversed() }
+func (e *dotHEdge) FromPort() (string, string)             { return e.fp, e.fc }
+func (e *dotHEdge) ToPort() (string, string)               { return e.tp, e.tc }
 func (e *dotHEdge) SetFromPort(port, compass string) error { e.fp, e.fc = port, compass; return nil }
 func (e *dotHEdge) SetToPort(port, compass string) error   { e.tp, e.tc = port, compass; return nil }
 
@@ -104,8 +106,8 @@ type dotCommon struct {
 	foreignOnEdge int // SetEdge/SetLine calls with an endpoint that is not the graph's node of that ID
 }
 
-func (c *dotCommon) DOTID() string      { return c.name }
-func (c *dotCommon) SetDOTID(s string)  { c.name = s; c.setIDCalls++ }
+func (c *dotCommon) DOTID() string     { return c.name }
+func (c *dotCommon) SetDOTID(s string) { c.name = s; c.setIDCalls++ }
 func (c *dotCommon) DOTAttributers() (g, n, e encoding.Attributer) {
 	return &c.ga, &c.na, &c.ea
 }
@@ -367,6 +369,8 @@ var dotSpecials = []string{"node", "edge", "graph", "digraph", "subgraph", "stri
 	"a b", "a\"b", "\\", "\\\"", "\"", "\"\"", "\"a\"", "a\\", "\\n", "\\N", "a\nb", "\n",
 	"n", "ne", "_", "c", "sw", "é", "été", "//", "/*", "/* x */", "#", "a+b", "a:b", "a=b", "[", "]", "{", "}", ";", ","}
 
+var dotHTML = []string{"<b>", "<b>x</b>", "<<i>y</i>>", "<>", "<a b=\"c\">", "<<table><tr><td>é</td></tr></table>>", "< >", "<\n>", "<->", "<b>-><b>", "<<b>><b>>", "<node>", "<1>"}
+
 var dotCompass = []string{"", "n", "ne", "e", "se", "s", "sw", "w", "nw", "c", "_"}
 
 func dotIsCompass(s string) bool {
@@ -414,11 +418,13 @@ func dotRepresentable(s string) bool {
 
 func dotDrawString(t *simrt.Tape) string {
 	var s string
-	switch t.Choose(simrt.KValue, 4) {
-	case 0:
+	switch t.Choose(simrt.KValue, 6) {
+	case 0, 1:
 		s = string(rune('a' + t.Choose(simrt.KValue, 6)))
-	case 1:
+	case 2:
 		s = dotSpecials[t.Choose(simrt.KValue, len(dotSpecials))]
+	case 3:
+		s = dotHTML[t.Choose(simrt.KValue, len(dotHTML))]
 	default:
 		n := t.Choose(simrt.KValue, 7)
 		for i := 0; i < n; i++ {
@@ -570,13 +576,13 @@ func dotDiff(want, got []string) string {
 			g = got[i]
 		}
 		if w != g {
-			return fmt.Sprintf("item %d: want %s, got %s (%d vs %d items)", i, orNone(w), orNone(g), len(want), len(got))
+			return fmt.Sprintf("item %d: want %s, got %s (%d vs %d items)", i, dotOrNone(w), dotOrNone(g), len(want), len(got))
 		}
 	}
 	return ""
 }
 
-func orNone(s string) string {
+func dotOrNone(s string) string {
 	if s == "" {
 		return "<nothing>"
 	}
@@ -876,7 +882,9 @@ func runDot(c *Ctx) *Violation {
 	hb := hashBytes(b)
 	try := func(kindName string, nontrivial bool, cor []byte, what func() string, key ...uint64) *Violation {
 		var accepted dotView
-		if v := c.Guard(codec+"/decode-damaged", func() string { return fmt.Sprintf("%s of the Marshal output of a %s graph: %q", what(), dotKinds[kind], cor) }, func() *Violation {
+		if v := c.Guard(codec+"/decode-damaged", func() string {
+			return fmt.Sprintf("%s of the Marshal output of a %s graph: %q", what(), dotKinds[kind], cor)
+		}, func() *Violation {
 			dst := dotNew(kind)
 			err := dotUnmarshal(cor, dst)
 			c.Case(kindName, nontrivial, append([]uint64{hb}, key...)...)
@@ -886,6 +894,11 @@ func runDot(c *Ctx) *Violation {
 				return nil
 			}
 			c.Outcome("damaged.accepted")
+			if kindName == "eof@k" {
+				c.Probe("truncated_accepted", 1)
+			} else if nontrivial {
+				c.Probe("corrupted_accepted", 1)
+			}
 			if why := dotClosed(dst); why != "" {
 				return viol("dot/"+codec+"/damaged-accepted-inconsistent", "%s: Unmarshal returned nil but %s\ninput: %q", what(), why, cor)
 			}
